@@ -261,6 +261,37 @@ def rule_counts(rep, repo):
                 "count is per input sample" % (cname, show(got_b),
                                                show(got)),
                 loc=qu.loc(fn), facts={"class": cname})
+  # siblings agree: every max-pooling class - windowed or global, whatever
+  # its rank - is counted the way MaxPooling2D is (one comparison per input
+  # element), and never as "no operations"
+  fam = {}
+  for cname, rank in (("MaxPooling2D", 4), ("GlobalMaxPooling2D", 4),
+                      ("MaxPool2D", 4), ("MaxPooling1D", 3),
+                      ("GlobalMaxPooling1D", 3)):
+    layer, ishape = mock_layer(cname, rank)
+    pe = PE(repo)
+    pe.fork = Fork([])
+    try:
+      r = pe.call(pe.lookup_global("get_operation_count", qu),
+                  [layer, ishape], {})
+      fam[cname] = (rank, fw(r.term) if isinstance(r, Tensor)
+                    else NF.const(F(r)))
+    except (PyRaise, Unsupported) as e:
+      rep.fail("R1", unit, "count-raises:" + cname,
+               "get_operation_count raises %s for a %s layer" % (e, cname),
+               loc=qu.loc(fn))
+  for cname, (rank, got) in sorted(fam.items()):
+    ref_name = "MaxPooling2D" if rank == 4 else "MaxPooling1D"
+    if ref_name not in fam:
+      continue
+    rep.check(got == fam[ref_name][1] and not got.is_zero(), "R1", unit,
+              "max-pooling-siblings-disagree:" + cname,
+              "operation count of a %s layer is %s, of a %s layer on the "
+              "same input %s" % (cname, show(got), ref_name,
+                                 show(fam[ref_name][1])), loc=qu.loc(fn),
+              facts={"class": cname})
+  if len(fam) < 5:
+    raise AnalysisError("instance-count max-pooling siblings")
   # the same function on concrete geometries: a count that is derived from
   # the layer's hyper-parameters instead of compute_output_shape must agree
   # with Keras' output-size rule for every stride / padding / dilation
